@@ -696,6 +696,10 @@ def check_C01(tier, seed):
                       "S": {"structs": [{"name": "Big", "members": [{"name": "items", "ty": {"k": "array", "n": 4097, "e": F.VEC4}}, {"name": "n", "ty": {"k": "scalar", "s": "u32"}}]}],
                             "globals": [{"name": "big", "space": "storage_r", "group": "0", "binding": "0", "ty": {"k": "struct", "name": "Big"}}], "consts": [], "overrides": [], "functions": [],
                             "entries": [{"name": "main", "stage": "compute", "params": [], "body": [{"k": "access", "g": "big", "how": "addr"}], "wg": ["1"]}]}})
+    # the include variant, with the shader file where the generated module looks for it
+    for i, pth in enumerate(["inc_a_%d.wgsl", "shaders/deep/inc_b_%d.wgsl", "dir with space/inc c_%d.wgsl"]):
+        S, has_rt = F.role_shader(rng, big_arrays=False)
+        cases.append({"id": "include-%d" % i, "family": "compile-include-variant", "S": S, "opts": dict(F.opts(enc=True, mv="glam", rustfmt=(i == 1)), include=pth % i)})
     # compute entries whose workgroup size is given by overrides (literal default, expression default, no default)
     for i, (ovs, wg) in enumerate([([{"name": "base", "ty": "u32", "default": "4u"}, {"name": "wide", "ty": "u32", "default": "2 * base"}], ["wide"]),
                                    ([{"name": "n", "ty": "u32"}], ["n", "2"]), ([{"name": "wx", "ty": "u32", "default": "16u"}, {"name": "wy", "ty": "u32"}], ["wx", "wy", "1"]),
